@@ -56,6 +56,7 @@ Definition entries : list (Z * (data -> data)) :=
     (513, fun d => let den := dZ (dnth 0 d) in e_qs (so_scale (d_sckind (dnth 1 d)) (d_qs den (dnth 2 d))));
     (514, fun d => let den := dZ (dnth 0 d) in let ys := d_qs den (dnth 1 d) in
                    elist (fun y => L [e_q (quantile_lo ys y); e_q (quantile_hi ys y)]) ys);
+    (515, fun d => let den := dZ (dnth 0 d) in elist enat (topk (dnat (dnth 1 d)) (d_qs den (dnth 2 d))));
     (* ---- oracles ---- *)
     (520, fun d => let den := dZ (dnth 0 d) in ebool (ok_pick_max (d_qs den (dnth 1 d)) (dnat (dnth 2 d))));
     (521, fun d => let den := dZ (dnth 0 d) in ebool (ok_pick_weak (d_rows den (dnth 1 d)) (dnat (dnth 2 d))));
@@ -72,4 +73,6 @@ Definition entries : list (Z * (data -> data)) :=
     (529, fun d => let den := dZ (dnth 0 d) in ebool (ok_scal_mono (d_rows den (dnth 1 d)) (d_qs den (dnth 2 d))));
     (530, fun d => let den := dZ (dnth 0 d) in ebool (ok_scal_strict (d_rows den (dnth 1 d)) (d_qs den (dnth 2 d))));
     (531, fun d => let den := dZ (dnth 0 d) in ebool (ok_scal_ideal (d_rows den (dnth 1 d)) (d_qs den (dnth 2 d))));
-    (532, fun d => let den := dZ (dnth 0 d) in ebool (ok_scaler_mono (d_qs den (dnth 1 d)) (d_qs den (dnth 2 d)))) ].
+    (532, fun d => let den := dZ (dnth 0 d) in ebool (ok_scaler_mono (d_qs den (dnth 1 d)) (d_qs den (dnth 2 d))));
+    (533, fun d => let den := dZ (dnth 0 d) in ebool (ok_acq_weak (dmap (d_triple den) (dnth 1 d))));
+    (534, fun d => let den := dZ (dnth 0 d) in ebool (ok_topk (d_qs den (dnth 1 d)) (dnat (dnth 2 d)) (dmap dnat (dnth 3 d)))) ].
